@@ -104,9 +104,10 @@ pub fn bytes_of(c: &RawCase) -> Vec<u8> {
             }
             continue;
         }
+        let n = b.len();
         match m {
-            Mut::Flip(p, bit) => b[idx(*p, b.len())] ^= 1 << bit,
-            Mut::Set(p, v) => b[idx(*p, b.len())] = *v,
+            Mut::Flip(p, bit) => b[idx(*p, n)] ^= 1 << bit,
+            Mut::Set(p, v) => b[idx(*p, n)] = *v,
             Mut::Insert(p, v) => b.insert(idx(*p, b.len() + 1), *v),
             Mut::Delete(p) => {
                 b.remove(idx(*p, b.len()));
